@@ -1253,7 +1253,7 @@ def main():
                        "the order in which a Python set is iterated is unspecified: iterations are compared as sets"]
     chk.trusted = ["hand-written models coq/theories/{Policy,RoleGraph,Mgmt,Fast}.v tied by the differential correspondence "
                    "(container / enforcer / history level)"]
-    chk.build(translators=["fastenforce"], oracle_name="Mgmt")
+    chk.build(translators=["fastenforce", "fastcontainer"], oracle_name="Mgmt")
     path, log = core.build_oracle(PROP)
     if log:
         chk.oracle_log = (chk.oracle_log + "\n" + log).strip()
